@@ -189,12 +189,36 @@ use std::rc::Rc;
 use std::task::Poll;
 
 #[derive(Clone, Copy, PartialEq)]
-enum Kind { Other, Publish, Chunk }
+enum Kind { Other, Publish, PublishStreamed, Chunk }
 struct Req { kind: Kind, size: u32 }
+impl Req {
+    /// the inbound item as the MQTT 3.1.1 codec hands it to the dispatcher
+    fn real(&self) -> crate::v3::codec::Decoded {
+        use crate::v3::codec::{Decoded, Packet, Publish};
+        let publish = |declared: u32| Publish {
+            dup: false,
+            retain: false,
+            qos: crate::types::QoS::AtMostOnce,
+            topic: ntex_bytes::ByteString::new(),
+            packet_id: None,
+            payload_size: declared,
+        };
+        match self.kind {
+            Kind::Other => Decoded::Packet(Packet::PingRequest, self.size),
+            // a PUBLISH that arrived whole (no payload chunks follow)
+            Kind::Publish => Decoded::Publish(publish(0), ntex_bytes::Bytes::new(), self.size),
+            // a PUBLISH whose payload is still on its way: chunks follow
+            Kind::PublishStreamed => Decoded::Publish(publish(5), ntex_bytes::Bytes::new(), self.size),
+            Kind::Chunk => Decoded::PayloadChunk(ntex_bytes::Bytes::new(), false),
+        }
+    }
+}
+/// classification and size are the REAL ones of `impl SizedRequest for Decoded` (src/v3/dispatcher.rs,
+/// extracted verbatim for the Kani flavour)
 impl SizedRequest for Req {
-    fn size(&self) -> u32 { self.size }
-    fn is_publish(&self) -> bool { self.kind == Kind::Publish }
-    fn is_chunk(&self) -> bool { self.kind == Kind::Chunk }
+    fn size(&self) -> u32 { SizedRequest::size(&self.real()) }
+    fn is_publish(&self) -> bool { SizedRequest::is_publish(&self.real()) }
+    fn is_chunk(&self) -> bool { SizedRequest::is_chunk(&self.real()) }
 }
 /// the wrapped service: a handler invocation stays pending until the gate opens; payload chunks are
 /// consumed at once (the dispatcher feeds them to the payload reader and returns)
@@ -304,7 +328,7 @@ vharness! {
         let wakes: &'static Cell<u32> = Box::leak(Box::new(Cell::new(0)));
         let waker = counting_waker(wakes);
         let mut cx = Context::from_waker(&waker);
-        let mut f1 = leak_pin(p.call(Req { kind: Kind::Publish, size: vk::any_u32() }));
+        let mut f1 = leak_pin(p.call(Req { kind: Kind::PublishStreamed, size: vk::any_u32() }));
         assert!(poll1(f1.as_mut(), &mut cx).is_pending());
         assert!(gate.running.get() == 1);
         let n = vk::any_len(3);
@@ -328,8 +352,8 @@ vharness! {
     //@ functions: inflight::InFlightServiceImpl::{ready, call} (the `publish` flag), Counter
     //@ bounds: max_cap = 1, no size limit; two PUBLISH packets back to back (no chunks in between), first handler gated
     //@ assumes: wrapped service always ready; one caller
-    //@ finding: known K3: `ready()` bypasses the counter while the `publish` flag is set, and `call()` sets it for EVERY publish (SizedRequest::is_publish is true for complete publishes too): the packet after a publish is never gated, so a burst of publishes runs more handlers at once than max_receive
-    //@ desc: documents the recorded finding K3: with max_receive = 1 and a first publish handler still running, reading must stop before the second PUBLISH
+    //@ finding: regression harness of former K3 (repaired in /repo): SizedRequest::is_publish used to be true for complete publishes too, so the packet after ANY publish bypassed the limiter
+    //@ desc: with max_receive = 1 and a first (complete) publish handler still running, reading stops before the second PUBLISH
     //@ mem: 16  timeout: 900
     fn ct_gate_publish_burst() unwind(4) {
         let gate = new_gate();
@@ -347,6 +371,5 @@ vharness! {
             assert!(gate.peak.get() <= 1, "more publish handlers at once than max_receive");
         }
         vcover!(!ready2, "second publish held back");
-        vcover!(ready2, "second publish admitted");
     }
 }
